@@ -415,3 +415,79 @@ def abi_args_unpack(eng, st, fr, args, ins):
         eng.ir.types["interface{}"] = {"k": "iface", "methods": []}
     et = "any" if "any" in eng.ir.types else "interface{}"
     return (eng.new_slice(st, et, tuple(vals)), None)
+
+
+# ------------------------------------------------------------------------------------ sort.Slice / errgroup / Header.Hash
+@intr("sort.Slice", "sort.SliceStable")
+def sort_slice(eng, st, fr, args, ins):
+    x, less = args
+    s = x.val
+    n = s.len if s is not None else 0
+    swap = Closure("zzverif.swapelems", (s,))
+    return eng.push_call(st, ZZ + "InsertionSort", [n, less, swap])
+
+
+@intr("zzverif.swapelems")
+def zz_swapelems(eng, st, fr, args, ins):
+    s = eng.current_binds[0]
+    i, j = args
+    if is_sym(i) or is_sym(j):
+        raise Unsupported("swap with symbolic positions")
+    arr = list(eng.load(st, s.arr))
+    a, b = s.off + i, s.off + j
+    arr[a], arr[b] = arr[b], arr[a]
+    eng.store(st, s.arr, tuple(arr))
+    return None
+
+
+EG = "(*golang.org/x/sync/errgroup.Group)."
+
+
+@intr(EG + "Go")
+def errgroup_go(eng, st, fr, args, ins):
+    # the function runs inline, sequentially; its result is collected when it returns (Engine.do_return)
+    g, f = args
+    st.world["errgroup_cur"] = g.obj if g is not None else None
+    r = eng.push_call(st, f.fn, [], f.binds)
+    st.frames[-1].ret = ("errgroup", g.obj if g is not None else None)
+    return r
+
+
+@intr(EG + "Wait")
+def errgroup_wait(eng, st, fr, args, ins):
+    g = args[0]
+    return st.world.get(("errgroup_err", g.obj if g is not None else None))
+
+
+@intr(EG + "SetLimit")
+def errgroup_setlimit(eng, st, fr, args, ins):
+    return None
+
+
+@intr("(*github.com/ethereum/go-ethereum/core/types.Header).Hash")
+def header_hash(eng, st, fr, args, ins):
+    """block hash as an uninterpreted function of (ParentHash, Number, Time, Extra-length is ignored): enough to tell canonical
+    from replaced blocks; natively it is the real RLP/Keccak hash"""
+    h = eng.load(st, args[0])
+    u = eng.ir.under("github.com/ethereum/go-ethereum/core/types.Header")
+    names = [f["name"] for f in u["fields"]]
+    parent = h[names.index("ParentHash")]
+    root = h[names.index("Root")]
+    num = h[names.index("Number")]
+    tm = h[names.index("Time")]
+    n = intrinsics.big_get(eng, st, num) if num is not None else 0
+    nb = tuple((n & ((1 << 64) - 1)).to_bytes(8, "big")) if not is_sym(n) else eng.unpack(z3.Extract(63, 0, n) if n.size() > 64 else n, 8)
+    tb = tuple(tm.to_bytes(8, "big")) if not is_sym(tm) else eng.unpack(tm, 8)
+    K = eng.keccak_uf(80)
+    term = K(eng.pack(tuple(parent) + tuple(root) + nb + tb))
+    return eng.unpack(term, 32)
+
+
+@intr("runtime.Version")
+def runtime_version(eng, st, fr, args, ins):
+    return "go1.24.4"
+
+
+@intr("runtime.GOOS", "runtime.GOARCH")
+def runtime_goos(eng, st, fr, args, ins):
+    return "linux"
